@@ -275,21 +275,37 @@ def _for_chain(text):
         expr_b = b[mi.end():o]
         segs = _split_chain(expr_b, expr)
         src_idx = None
+        vec_src = False
         for idx, sg in enumerate(segs):
             mm = re.match(r"(\w+)\s*\(", sg)
             if mm and mm.group(1) in ITER_SOURCES:
                 src_idx = idx
         if src_idx is None:
+            # `V.iter()` followed by at least one adapter of the catalogue (a plain `for x in v.iter()` is left alone)
+            for idx, sg in enumerate(segs):
+                if re.match(r"iter\s*\(\s*\)$", " ".join(sg.split())) and idx + 1 < len(segs) and re.match(r"(zip|enumerate|map|skip)\b", segs[idx + 1]):
+                    src_idx, vec_src = idx, True
+                    break
+        if src_idx is None:
             pos = o; continue
         k += 1
-        name = re.match(r"(\w+)", segs[src_idx]).group(1)
-        src_call = ".".join(segs[:src_idx] + [segs[src_idx].replace(name, name + "_v", 1)])
-        src_call = " ".join(src_call.split())
         it, ix = "it_%d" % k, "ix_%d" % k
-        elem = "%s[%s]" % (it, ix)
+        if vec_src:
+            src_call = "&" + " ".join(".".join(segs[:src_idx]).split())
+            elem = "&%s[%s]" % (it, ix)
+        else:
+            name = re.match(r"(\w+)", segs[src_idx]).group(1)
+            src_call = ".".join(segs[:src_idx] + [segs[src_idx].replace(name, name + "_v", 1)])
+            src_call = " ".join(src_call.split())
+            elem = "%s[%s]" % (it, ix)
         start = "0"
         for sg in segs[src_idx + 1:]:
             sg1 = " ".join(sg.split())
+            mm = re.match(r"zip\s*\(\s*([\w.]+)\s*\.\s*iter\s*\(\s*\)\s*\.\s*cycle\s*\(\s*\)\s*\.\s*skip\s*\(\s*(\w+)\s*\)\s*\)$", sg1)
+            if mm:
+                # pair each element with the one K places further on, cyclically
+                elem = "(%s, &%s[(%s + %s) %% %s.len()])" % (elem, mm.group(1), ix, mm.group(2), mm.group(1))
+                continue
             mm = re.match(r"map\s*\(\s*(?:move\s+)?\|\s*([^|]*?)\s*\|\s*(.*)\)$", sg1)
             if mm:
                 elem = "{ let %s = %s; %s }" % (mm.group(1), elem, mm.group(2))
